@@ -1443,8 +1443,23 @@ def m_randrange(ip, st, recv, args, kwargs):
     return x
 
 
+def m_urandom(ip, st, args, kwargs):
+    # os.urandom(n): ValueError for negative n, otherwise ANY byte string of exactly n bytes
+    (n,) = args
+    ip.assumed.add('os.urandom(n) library model: ValueError iff n < 0, otherwise any n bytes')
+    if isinstance(n, int) and not isinstance(n, bool):
+        if n < 0:
+            _raise('ValueError', 'negative argument not allowed')
+    else:
+        ip.cond_raise(st, I(n) < 0, 'ValueError', 'negative argument not allowed')
+    r = fresh('urandom', 'bytes')
+    st.assume(z3.Length(r.t) == I(n))
+    return r
+
+
 LIB_MODELS = {
     'random.SystemRandom': m_SystemRandom,
+    'os.urandom': m_urandom,
     'io.BytesIO': m_BytesIO,
     'struct.unpack': m_struct_unpack,
     'struct.pack': m_struct_pack,
